@@ -388,7 +388,16 @@ def standard_streams(ctx, n_seed_cfgs=1, n_mut=200, n_soup=300, n_bytes=100, n_g
         cases.append(ctx.case("grammar", t, gen.random_cfg(rng)))
     for _ in range(n_gram * 2):
         cases.append(ctx.case("literal", literal_text(rng), gen.random_cfg(rng)))
+    for _ in range(n_gram):
+        cases.append(ctx.case("childline", gen.child_line_program(rng), gen.random_cfg(rng)))
+    for text, tag in placement_sample(ctx):
+        cases.append(ctx.case("placement", text, gen.random_cfg(rng), meta={"tag": tag}))
     return cases
+
+
+def placement_sample(ctx):
+    m = list(gen.child_placement_matrix())
+    return m if not ctx.quick() else ctx.rng.sample(m, 400)
 
 
 # ------------------------------------------------------------------ C01
@@ -448,6 +457,10 @@ def wellformed_texts(ctx, n_gram):
     out = [(s["text"], "seed", s["wrap"]) for s in gen.seeds()]
     for _ in range(n_gram):
         out.append((gen.grammar_program(ctx.rng).text(), "grammar", 120))
+    for _ in range(n_gram):
+        out.append((gen.child_line_program(ctx.rng), "childline", ctx.rng.choice([30, 60, 120, 120])))
+    for text, tag in placement_sample(ctx):
+        out.append((text, "placement", ctx.rng.choice([30, 120])))
     return out
 
 
@@ -589,7 +602,8 @@ def double_region_in_statement(text, rng):
     """one statement whose head and tail are in disabled regions while its middle is formatted code, with several blank
     lines before a middle token: `{pasfmt off}Foo  ({pasfmt on} A,<blank lines> B {pasfmt off})  ;{pasfmt on}`.
     returns (new_text, [regions]) or None"""
-    if gen.has_asm_or_toggle(text) or "'''" in text:
+    if gen.has_asm_or_toggle(text) or "'''" in text or gen.has_multiline_token(text):
+        # (works line by line: a line inside a multi-line comment would get its "toggles" inside that comment)
         return None
     lines = text.split("\n")
     cand = [i for i, ln in enumerate(lines) if ln.strip().endswith(";") and "//" not in ln and "{" not in ln and "(*" not in ln and "'" not in ln]
@@ -1748,6 +1762,14 @@ def run_c05(ctx):
             pre = rng.choice(["{$IFDEF A}{$DEFINE B}{$ELSE}{$DEFINE C}{$ENDIF}\n", "{$IF X}{$R a.res}{$ELSEIF Y}{$R b.res}{$ELSE}{$R d.res}{$IFEND}\n"])
             k = len(re.sub(r"\s", "", pre))
             cases.append(ctx.case("grammar-after-directives", pre + t2, cfg, meta={"marks": [(i + k, d, kd) for i, d, kd in idx]}))
+
+    # single-statement bodies (child lines of the wrapper), trivia between the controlling token and the body: the statements of the
+    # routine's own statement list and its closer are the marked ones
+    for _ in range(ctx.n(300, 6000)):
+        text, marks = gen.child_line_program(rng, with_marks=True)
+        cases.append(ctx.case("childline", text, gen.random_cfg(rng), meta={"marks": [(nonblank_index(text, off), d, k) for off, d, k in marks]}))
+    for text, tag in placement_sample(ctx):
+        cases.append(ctx.case("placement", text, gen.random_cfg(rng), meta={"tag": tag, "marks": [(nonblank_index(text, off), d, k) for off, d, k in gen.placement_marks(text)]}))
 
     # the witnesses of the listed C05 findings carry their own marks: [substring whose first character is marked, depth, kind]
     from . import findings as _f5
